@@ -8,9 +8,9 @@ cd "$wt" || exit 2
 git checkout -q -- . ; git clean -fdq -e target
 tn=$(basename "$tp" .rs)
 mkdir -p "$(dirname "$tp")"; cp "$sd/demo_test.rs" "$tp"
-cargo test --offline -p "$crate" --test "$tn" > "$sd/confirm_demo_without.log" 2>&1; echo "demo WITHOUT change: exit $? (expect 0)"
+cargo test --offline -p "$crate" ${FEATURES:+--features $FEATURES} --test "$tn" > "$sd/confirm_demo_without.log" 2>&1; echo "demo WITHOUT change: exit $? (expect 0)"
 git apply "$sd/patch.diff" || { echo "PATCH DOES NOT APPLY"; exit 1; }
-cargo test --offline -p "$crate" --test "$tn" > "$sd/confirm_demo_with.log" 2>&1; echo "demo WITH change: exit $? (expect non-zero)"
+cargo test --offline -p "$crate" ${FEATURES:+--features $FEATURES} --test "$tn" > "$sd/confirm_demo_with.log" 2>&1; echo "demo WITH change: exit $? (expect non-zero)"
 rm -f "$tp"; rmdir "$(dirname "$tp")" 2>/dev/null
 cargo test --workspace --offline --no-fail-fast > "$sd/confirm_suite_with.log" 2>&1; rc=$?
 echo "existing suite WITH change: exit $rc (expect 0); $(grep -c '^test result: ok' "$sd/confirm_suite_with.log") ok result lines, $(grep -c 'FAILED' "$sd/confirm_suite_with.log") FAILED"
